@@ -52,6 +52,93 @@ pub struct Ctx {
     known: Vec<KnownEntry>,
     seen: Mutex<BTreeMap<String, Seen>>,
     notes: Mutex<Vec<String>>,
+    pub build_configs: Mutex<Vec<Value>>,
+}
+
+/// Build-configuration variants of this harness: (name, binary, properties it can run, description).
+/// The `check` script builds them next to the main binary; the main run spawns each applicable one
+/// (`VERIF_VARIANT=<name>`), which runs the same property code against the library crates built
+/// with that configuration and hands its failures back on a `WORKER_RESULT` line.
+pub const VARIANTS: [(&str, &str, &[&str], &str); 3] = [
+    (
+        "dbg",
+        "/verif/.target/dbg/nexrad-mc",
+        &["C01", "C02", "C03", "C04", "C05", "C06", "C07", "C08", "C09", "C10", "C11", "C12", "C13", "C14", "C15", "C16", "C17", "C18", "C19"],
+        "all features, debug-assertions on (cfg(debug_assertions) code and debug_assert! are live)",
+    ),
+    (
+        "bare",
+        "/verif/.target/v-bare/release/nexrad-mc",
+        &["C02", "C03", "C06", "C08", "C10", "C11", "C12", "C13"],
+        "nexrad-decode, nexrad-data and nexrad-model built with default-features = false and no features; the checks are restricted to the API that exists then",
+    ),
+    (
+        "aws",
+        "/verif/.target/v-aws/release/nexrad-mc",
+        &["C06", "C14", "C15", "C16", "C17"],
+        "nexrad-data built with only the aws feature (+ verif-hooks), no decode; nexrad-decode and nexrad-model without features",
+    ),
+];
+
+pub fn variant_name() -> Option<String> {
+    std::env::var("VERIF_VARIANT").ok().filter(|v| !v.is_empty())
+}
+
+/// Spawns the applicable variant binaries for `prop`; `collect_variants` waits for them.
+pub fn spawn_variants(prop: &str, tier: Tier) -> Vec<(&'static str, &'static str, Option<std::process::Child>)> {
+    let mut out = Vec::new();
+    if variant_name().is_some() || std::env::var("VERIF_NO_VARIANTS").is_ok() {
+        return out;
+    }
+    for (name, bin, props, what) in VARIANTS {
+        if !props.contains(&prop) {
+            continue;
+        }
+        if !std::path::Path::new(bin).exists() {
+            out.push((name, what, None));
+            continue;
+        }
+        let child = std::process::Command::new(bin)
+            .args([prop, tier.name()])
+            .env("VERIF_VARIANT", name)
+            .stdout(std::process::Stdio::piped())
+            .stderr(std::process::Stdio::inherit())
+            .spawn()
+            .unwrap_or_else(|e| machinery(&format!("spawn variant {name}: {e}")));
+        out.push((name, what, Some(child)));
+    }
+    out
+}
+
+pub fn collect_variants(ctx: &Ctx, children: Vec<(&'static str, &'static str, Option<std::process::Child>)>) {
+    for (name, what, child) in children {
+        let Some(child) = child else {
+            println!("NOTE {}: build configuration '{name}' was not built (its build against /repo failed; see /verif/.target/build-{name}.log); not checked in that configuration", ctx.prop);
+            ctx.build_configs.lock().unwrap_or_else(|e| e.into_inner()).push(json!({"name": name, "configuration": what, "status": "not built"}));
+            continue;
+        };
+        let o = child.wait_with_output().unwrap_or_else(|e| machinery(&format!("wait variant {name}: {e}")));
+        let text = String::from_utf8_lossy(&o.stdout).to_string();
+        let line = text.lines().find_map(|l| l.strip_prefix("WORKER_RESULT "));
+        let Some(v) = line.and_then(|l| serde_json::from_str::<Value>(l).ok()) else {
+            machinery(&format!("variant {name} of {} produced no result (status {:?}); output tail: {}", ctx.prop, o.status, text.chars().rev().take(600).collect::<String>().chars().rev().collect::<String>()));
+        };
+        let mut fails = v["fails"].clone();
+        let n = fails.as_array().map(|a| a.len()).unwrap_or(0);
+        if let Some(a) = fails.as_array_mut() {
+            for f in a.iter_mut() {
+                let d = f["detail"].as_str().unwrap_or("").to_string();
+                f["detail"] = json!(format!("[build configuration {name}: {what}] {d}"));
+                if let Some(w) = f["witness"].as_object_mut() {
+                    w.insert("build_config".into(), json!(name));
+                }
+            }
+        }
+        ctx.import_fails(&fails);
+        ctx.build_configs.lock().unwrap_or_else(|e| e.into_inner()).push(json!({
+            "name": name, "configuration": what, "status": "ran", "evaluations": v["evaluations"], "wall_s": v["wall_s"], "distinct_failure_signatures": n,
+        }));
+    }
 }
 
 impl Ctx {
@@ -70,6 +157,7 @@ impl Ctx {
             known,
             seen: Mutex::new(BTreeMap::new()),
             notes: Mutex::new(Vec::new()),
+            build_configs: Mutex::new(Vec::new()),
         }
     }
 
@@ -145,6 +233,13 @@ impl Ctx {
 
     /// Write evidence, print KNOWN-FINDING / VIOLATION lines, return the process exit code.
     pub fn finish(&self, level: &str, mut coverage: Value, assumptions: Vec<&str>) -> i32 {
+        if !self.replaying {
+            if let Some(name) = variant_name() {
+                // a build-configuration variant: hand the failures to the parent, write nothing
+                println!("WORKER_RESULT {}", json!({"variant": name, "fails": self.export_fails(), "evaluations": coverage["evaluations"], "wall_s": (self.elapsed() * 10.0).round() / 10.0}));
+                return 0;
+            }
+        }
         let seen = self.seen.lock().unwrap_or_else(|e| e.into_inner());
         let mut violations = 0usize;
         let mut known_hits = Vec::new();
@@ -176,7 +271,10 @@ impl Ctx {
                     "cases_with_this_signature": s.count,
                     "case": s.witness,
                 });
-                let _ = std::fs::write(&path, serde_json::to_string_pretty(&body).unwrap_or_default());
+                // a replay reports against the file it was given and never rewrites it
+                if !self.replaying {
+                    let _ = std::fs::write(&path, serde_json::to_string_pretty(&body).unwrap_or_default());
+                }
                 if violations <= 25 {
                     println!("VIOLATION property={} replay={}", self.prop, path);
                     println!("  signature: {}", sig);
@@ -198,9 +296,13 @@ impl Ctx {
                     "TZ": std::env::var("TZ").unwrap_or_default(),
                     "logging_passes": if self.prop == "C20" || std::env::var("VERIF_SINGLE_PASS").is_ok() { vec!["off"] } else { vec!["trace (sink logger, nexrad targets), wall clock set to 1986-07-01", "off, real wall clock (reported)"] },
                     "wall_clock": "owned: the harness binary defines clock_gettime; CLOCK_REALTIME answers come from the harness (self-tested against chrono::Utc::now at start-up)",
-                    "profile": "opt-level 2, overflow-checks on, debug-assertions off",
+                    "profile": if cfg!(debug_assertions) { "opt-level 2, overflow-checks on, debug-assertions on" } else { "opt-level 2, overflow-checks on, debug-assertions off" },
                 }),
             );
+            let bc = self.build_configs.lock().unwrap_or_else(|e| e.into_inner()).clone();
+            if !bc.is_empty() {
+                m.insert("build_configurations_also_run".into(), Value::Array(bc));
+            }
             let notes = self.notes.lock().unwrap_or_else(|e| e.into_inner()).clone();
             if !notes.is_empty() {
                 m.insert("notes".into(), json!(notes));
